@@ -158,6 +158,56 @@ Fixpoint enc_ptree (t : ptree) : sx :=
   | PNot a => L [A 3; enc_ptree a]
   end.
 
+(** ---------- printed trees and neutral texts (used by the theorems) ---------- *)
+(** [inert t]: scanning t (from outside any string literal, at any depth >= 0) only copies it: no split,
+    same depth afterwards, outside any string literal afterwards *)
+Definition inert (op : Z) (t : str) : Prop :=
+  forall rest depth cur, 0 <= depth ->
+    split_logical op (t ++ rest) depth None cur false = split_logical op rest depth None (rev t ++ cur) false.
+
+(** [inert_in t]: the same, but only required at depth >= 1 (t may contain && or || at its own top level) *)
+Definition inert_in (op : Z) (t : str) : Prop :=
+  forall rest depth cur, 1 <= depth ->
+    split_logical op (t ++ rest) depth None cur false = split_logical op rest depth None (rev t ++ cur) false.
+
+
+Definition gcompound (g : gcond) : bool := match g with GAnd2 _ _ | GOr2 _ _ => true | _ => false end.
+Fixpoint pr_g (g : gcond) : str :=
+  match g with
+  | GC c => pr_cond c
+  | GParen a => 40 :: pr_g a ++ [41]
+  | GAnd2 a b => (if gcompound a then 40 :: pr_g a ++ [41] else pr_g a) ++ [32; 38; 38; 32] ++ (if gcompound b then 40 :: pr_g b ++ [41] else pr_g b)
+  | GOr2 a b => (if gcompound a then 40 :: pr_g a ++ [41] else pr_g a) ++ [32; 124; 124; 32] ++ (if gcompound b then 40 :: pr_g b ++ [41] else pr_g b)
+  | GNot2 a => 33 :: 40 :: pr_g a ++ [41]
+  end.
+Fixpoint skel (g : gcond) : ptree :=
+  match g with
+  | GC c => PLeaf (pr_cond c)
+  | GParen a => skel a
+  | GAnd2 a b => PAnd (skel a) (skel b)
+  | GOr2 a b => POr (skel a) (skel b)
+  | GNot2 a => PNot (skel a)
+  end.
+
+(** what a leaf text must be like: not blank at either end, not starting with ( or !, and neutral for the
+    splitter and for the parenthesis counter (it copies through both, at any depth) *)
+Definition bal_inert (t : str) : Prop :=
+  forall rest n, 0 <= n -> balanced_q (t ++ rest) n None = balanced_q rest n None.
+Record leaf_ok (t : str) : Prop := {
+  lf_first : exists c r, t = c :: r /\ ws_unicode c = false /\ (c =? 40) = false /\ (c =? 33) = false;
+  lf_last : exists c r, rev t = c :: r /\ ws_unicode c = false;
+  lf_and : inert 38 t;
+  lf_or : inert 124 t;
+  lf_bal : bal_inert t }.
+
+Fixpoint wf_g (g : gcond) : Prop :=
+  match g with
+  | GC c => leaf_ok (pr_cond c)
+  | GParen a | GNot2 a => wf_g a
+  | GAnd2 a b | GOr2 a b => wf_g a /\ wf_g b
+  end.
+
+
 (** ---------- model of the single-comparison regular expression on typed-core leaves ----------
     condition_regex:  path ( ws* [+-*/%] ws* [a-zA-Z0-9_.]+ )*  ws*  (>=|<=|==|!=|>|<|contains|startsWith|endsWith|matches|in)  ws*  (.+)
     matched at the start of the leaf (greedy, no backtracking needed on the typed core); None = no prediction *)
